@@ -73,6 +73,8 @@ type vWorld struct {
 	crashAt     bool   // if set, an injected fault is a crash (sentinel panic) instead of an error
 	faulted     []string
 	uidSeq      int
+	// listerFaults: lookups in the claim cache may fail too (C06)
+	listerFaults bool
 }
 
 type vCrash struct{}
@@ -89,7 +91,9 @@ func (w *vWorld) fault(verb, resource, name string) error {
 	if w.faultBudget <= 0 {
 		return nil
 	}
-	if !sym.Bool("fault") {
+	// the variable is named after the call's target, not its position, so that
+	// code visiting objects in map order fails at the same object natively
+	if !sym.Bool("fault@" + verb + ":" + name) {
 		return nil
 	}
 	w.faultBudget--
@@ -100,7 +104,7 @@ func (w *vWorld) fault(verb, resource, name string) error {
 	}
 	kind := 0
 	if w.faultKinds > 1 {
-		kind = sym.Pick("faultkind", w.faultKinds)
+		kind = sym.Pick("faultkind@"+verb+":"+name, w.faultKinds)
 	}
 	w.faulted = append(w.faulted, verb+":"+vFaultKindNames[kind])
 	sym.Cover("fault injected at " + verb)
@@ -535,6 +539,15 @@ func (l *vPVCNsLister) List(sel labels.Selector) ([]*v1.PersistentVolumeClaim, e
 	return l.w.pvcs, nil
 }
 func (l *vPVCNsLister) Get(name string) (*v1.PersistentVolumeClaim, error) {
+	if l.w.listerFaults {
+		op := l.w.record(vOp{verb: "pvc.get", name: name})
+		if l.w.faultBudget > 0 && sym.Bool("fault@pvc.get:"+name) {
+			l.w.faultBudget--
+			op.failed = true
+			sym.Cover("fault injected at pvc.get")
+			return nil, apierrors.NewInternalError(fmt.Errorf("injected cache error"))
+		}
+	}
 	for _, p := range l.w.pvcs {
 		if p.Name == name {
 			return p, nil
